@@ -446,6 +446,21 @@ theorem C13_solve_rejects_zero_epoch_iters {sqrt : α → α} {h : Hyper α} (st
   obtain ⟨k, hk⟩ : ∃ k, h.maxIters = k + 1 := ⟨h.maxIters - 1, by omega⟩
   simp [solveLoop, hk, epochs, epochBody, innerIters, initLoop, hE, bind, Except.bind]
 
+/-- **Reusable, with the sampler made explicit.**  A solve on an object with arbitrary
+left-over fields, given data `data` and no sampler, is the solve of a freshly constructed object
+of the same class whose estimates come from the default sampler of THAT data (`mkDefault data`) —
+not from the sampler or the data of any earlier solve; with an explicit sampler it is the solve
+with that sampler.  The sampler is a per-solve function of the arguments. -/
+theorem C13_reusable_sampler {D S : Type} {sqrt : α → α} {h : Hyper α} (st : OptState α)
+    (init : Ktensor α) (lb : Option α) (data : D) (mkDefault : D → S)
+    (fOracle : S → D → Nat → Ktensor α → α) (gOracle : S → D → Nat → Ktensor α → Factors α) :
+    solveData sqrt h st init lb data none mkDefault fOracle gOracle =
+      solve sqrt h (OptState.fresh st.kind) init lb (fOracle (mkDefault data) data)
+        (gOracle (mkDefault data) data) ∧
+    ∀ s : S, solveData sqrt h st init lb data (some s) mkDefault fOracle gOracle =
+      solve sqrt h (OptState.fresh st.kind) init lb (fOracle s data) (gOracle s data) :=
+  ⟨(C13_reusable st init lb _ _).1, fun s => (C13_reusable st init lb _ _).1⟩
+
 end solvers
 
 /-! #### the tree before ee5fefa / e9e4a44 -/
